@@ -718,3 +718,55 @@ def short_path(p):
         return "?"
     parts = p.split("::")
     return "::".join(parts[-2:]) if len(parts) > 1 else p
+
+
+def while_let_shape(loop):
+    """(cur local id, bound local id, then-block) for `while let Some(x) = cur { .. }`, else None"""
+    body = loop.get("body")
+    if not body or body.get("k") != "Block" or body["stmts"] or "tail" not in body:
+        return None
+    t = peel(body["tail"])
+    if t.get("k") != "If" or "else" not in t:
+        return None
+    c = peel(t["cond"])
+    if c.get("k") != "LetCond":
+        return None
+    cur = local_of(c["init"])
+    if cur is None or str(pat_variant(c["pat"])).split("::")[-1] != "Some":
+        return None
+    bs = pat_bindings(c["pat"])
+    if len(bs) != 1:
+        return None
+    then = peel(t["then"])
+    blk = then["block"] if then.get("k") == "BlockExpr" else then
+    if blk.get("k") != "Block":
+        return None
+    return cur[0], bs[0]["local"], blk
+
+
+def root_path(fn, e, depth=0, stop=()):
+    """(root local id, [field names]) of a place-like expression, looking through borrows, clones,
+    as_*/unwrap projections, From::from, and immutable let / pattern bindings; None if unknown"""
+    if depth > 8:
+        return None
+    e = peel_transparent(e, extra=("unwrap", "expect", "as_ident", "as_member", "as_ref", "as_deref"))
+    fields = []
+    while True:
+        k = e.get("k")
+        if k == "Field":
+            fields.insert(0, e["field"])
+            e = peel_transparent(e["x"], extra=("unwrap", "expect", "as_ident", "as_member", "as_ref", "as_deref"))
+        else:
+            break
+    l = local_of(e)
+    if l is None:
+        return None
+    b = fn.bindings().get(l[0])
+    if not b or fn.assignments_to(l[0]) or l[0] in stop:
+        return (l[0], fields)
+    o = b["origin"]
+    if o[0] in ("let", "match") and o[1] is not None:
+        sub = root_path(fn, o[1], depth + 1, stop)
+        if sub is not None:
+            return (sub[0], sub[1] + fields)
+    return (l[0], fields)
